@@ -352,8 +352,10 @@ def emboss_cases(chk, tier, stats, model_ok):
                 base = base[:i]
             muts.append(base)
         pt = lr1dump.ptypes()
-        for toks in streams + muts:
-            toks = [pt.Token(t.symbol, t.text, t.source_location) for t in toks]   # fresh identities
+        for k, toks in enumerate(streams + muts):
+            # fresh identities; mutated streams carry no locations (shuffled locations would
+            # trip SourceLocation's start <= end assertion, which real token lists never do)
+            toks = [pt.Token(t.symbol, t.text, t.source_location if k < len(streams) else None) for t in toks]
             line, res, pexc = lr1dump.real_parse(parser, toks, sym, code)
             w = tuple(t.symbol for t in toks)
             key = (len(case.real), w)
